@@ -1224,7 +1224,13 @@ impl<'a, 'b, W: Write> Serializer for &'a mut YamlSerializer<'b, W> {
         self.out.write_str("!!binary ")?;
         let mut s = String::new();
         B64.encode_string(v, &mut s);
-        self.out.write_str(&s)?;
+        if s.is_empty() {
+            // An empty plain scalar is null-like (an `Option` would read it as `None`): write
+            // the empty payload as an explicit empty string.
+            self.out.write_str("\"\"")?;
+        } else {
+            self.out.write_str(&s)?;
+        }
         self.write_end_of_scalar()?;
         Ok(())
     }
